@@ -204,7 +204,7 @@ public:
 		clear();
 		if (0 == rhs) return *this;
 		bool s = (rhs < 0);
-		uint64_t raw = static_cast<uint64_t>(s ? -rhs : rhs);
+		uint64_t raw = s ? (0ull - static_cast<uint64_t>(rhs)) : static_cast<uint64_t>(rhs); // -rhs is undefined for the most negative value
 		int exponent = int(find_msb(raw)) - 1; // precondition that msb > 0 is satisfied by the zero test above
 		constexpr uint32_t sizeInBits = 8 * sizeof(Ty);
 		uint32_t shift = sizeInBits - exponent - 1;
